@@ -116,6 +116,10 @@ def _find_base(max_count, num_reserved, uint_max):
         If the base is 1.0
 
     """
+    if uint_max - num_reserved < 2:
+        # Only the maximum counter lies above num_reserved: nothing to solve for (and
+        # _funcprime is 0 when max_count == uint_max)
+        raise ValueError("num_reserved leaves no counters for log counting")
     base = float64(np.exp(np.log(max_count) / (uint_max - num_reserved)))
 
     for i in range(200):
